@@ -238,3 +238,139 @@ Proof.
                 (region_grows _ _ _ _ _ G3 (conj Hds (conj Ho1 Ho2)))) as (m4 & -> & D4 & N4 & L4 & _).
     cbn. apply wgood_set_dst; auto. eapply grows_trans; [exact G3|apply same_len_grows; auto].
 Qed.
+
+(* ------------------------------------------------------------------ small facts *)
+Lemma rawStructPointer_some o sz : DataSize sz mod 8 = 0 -> exists v, rawStructPointer o sz = Some v.
+Proof.
+  intros H. unfold rawStructPointer, dataWordCount. destruct (DataSize sz mod 8 =? 0) eqn:E; [|lia].
+  eexists. reflexivity.
+Qed.
+
+Lemma times_some a b : 0 <= a * b <= maxSegmentSize -> times a b = Some (a * b).
+Proof.
+  intros H. unfold times. cbv zeta.
+  destruct ((a * b >? maxSegmentSize) || (a * b <? 0)) eqn:E; [lia|reflexivity].
+Qed.
+
+Lemma src_data_slice m p : msg_ok m -> wf_struct m p -> p_valid p = true ->
+  slice (seg_of m p) (p_off p) (DataSize (p_size p)) = Ok (sub (seg_of m p) (p_off p) (DataSize (p_size p))) /\
+  zlen (sub (seg_of m p) (p_off p) (DataSize (p_size p))) = DataSize (p_size p).
+Proof.
+  intros Hm Hw V. destruct (wf_struct_inv m p Hw V) as (Hs & Hz & Ho & He). unfold wf_size in Hz.
+  destruct (seg_of_ok m p Hm) as [Hl _]. unfold maxSegmentSize in Hl.
+  split; [apply slice_ok; lia|apply sub_length; lia].
+Qed.
+
+Lemma dst_slice m sid off n : dok m -> region_ok m sid off n -> 0 <= n ->
+  slice (mem m sid) off n = Ok (sub (mem m sid) off n) /\ zlen (sub (mem m sid) off n) = n.
+Proof.
+  intros [_ Hs] (R1 & R2 & R3) Hn. pose proof (Hs sid) as H. unfold maxSegmentSize in H.
+  split; [apply slice_ok; lia|apply sub_length; lia].
+Qed.
+
+(* element i of a destination list *)
+Lemma list_struct_at p i : p_valid p = true -> p_bit p = false -> 0 <= i < p_len p ->
+  0 <= p_off p + i * totalSize (p_size p) <= maxSegmentSize ->
+  exists d, list_struct true p i = Ok (mkPtr true (p_seg p) (p_off p + i * totalSize (p_size p)) 0 (p_size p) d
+                                           KStruct false false true).
+Proof.
+  intros V B Hi Hr. unfold list_struct. rewrite V, B. cbn [negb orb].
+  destruct (i <? 0) eqn:E1; [lia|]. destruct (i >=? p_len p) eqn:E2; [lia|]. cbn [orb].
+  destruct (element _ _ _) eqn:E.
+  - apply element_spec in E. destruct E as [-> _]. eexists. reflexivity.
+  - apply element_none in E. lia.
+Qed.
+
+Lemma list_raw_shape p : p_valid p = true -> p_kind p = KList -> shape_ok p -> list_raw p <> Panic.
+Proof.
+  intros V K Hs. specialize (Hs V). rewrite K in Hs. unfold list_raw. rewrite V. cbn [negb].
+  destruct (p_comp p).
+  - destruct Hs as (_ & Hd & _). unfold totalWordCount, dataWordCount.
+    destruct (DataSize (p_size p) mod 8 =? 0) eqn:E; [discriminate|lia].
+  - destruct (p_bit p); [discriminate|].
+    destruct Hs as [-> |[-> |[-> |[-> |[-> | -> ]]]]];
+      cbv [DataSize PointerCount Z.eqb Pos.eqb andb negb]; discriminate.
+Qed.
+
+Definition dst_ok (m : bmsg) (d : Ptr) : Prop :=
+  p_valid d = true /\ wf_size (p_size d) /\
+  region_ok m (p_seg d) (p_off d) (DataSize (p_size d) + 8 * PointerCount (p_size d)).
+
+Lemma dst_ptr_slot m d j : dok m -> dst_ok m d -> 0 <= j < PointerCount (p_size d) ->
+  region_ok m (p_seg d) (pointerAddress d j) 8.
+Proof.
+  intros [_ Hs] (V & Hz & R1 & R2 & R3) Hj. unfold wf_size in Hz. pose proof (Hs (p_seg d)) as H.
+  rewrite pointerAddress_eq by lia. unfold region_ok. lia.
+Qed.
+
+(* ------------------------------------------------------------------ the copy never panics *)
+Definition P_wp (f : nat) : Prop := forall w dsid off src fc,
+  dok (w_dst w) -> msg_ok (w_src w) -> 0 <= w_src_rl w -> region_ok (w_dst w) dsid off 8 ->
+  wf_ptr (w_src w) src -> shape_ok src ->
+  rpost w (write_ptr f true w dsid off InSrc src fc).
+Definition P_cs (f : nat) : Prop := forall w dst src,
+  dok (w_dst w) -> msg_ok (w_src w) -> 0 <= w_src_rl w -> dst_ok (w_dst w) dst ->
+  wf_struct (w_src w) src ->
+  rpost w (copy_struct f true w dst InSrc src).
+
+Lemma cs_step f : P_wp f -> P_cs (S f).
+Proof.
+  intros IH w dst src Hd Hm Hr Hdst Hs. pose proof Hdst as (Vd & Zd & Rd). cbn [copy_struct].
+  rewrite Vd. cbn [negb]. destruct (p_valid src) eqn:Vs; cbn [negb]; [|cbn; apply wgood_refl; assumption].
+  cbn [w_segs]. change (nth (Z.to_nat (p_seg src)) (w_src w) []) with (seg_of (w_src w) src).
+  destruct (src_data_slice _ src Hm Hs Vs) as [-> Ls]. cbn [bind].
+  rewrite nth_bm_data. unfold wf_size in Zd.
+  destruct (dst_slice (w_dst w) (p_seg dst) (p_off dst) (DataSize (p_size dst)) Hd
+              ltac:(destruct Rd as (R1 & R2 & R3); unfold region_ok; lia) ltac:(lia)) as [-> Ld].
+  cbn [bind].
+  set (sd := sub (seg_of (w_src w) src) (p_off src) (DataSize (p_size src))) in *.
+  set (dd := sub (mem (w_dst w) (p_seg dst)) (p_off dst) (DataSize (p_size dst))) in *.
+  set (bs := firstn (Nat.min (length sd) (length dd)) sd ++ repeat 0 (length dd - Nat.min (length sd) (length dd))).
+  assert (zlen bs = DataSize (p_size dst)) as Lb.
+  { unfold bs, zlen in *. rewrite app_length, firstn_length, repeat_length. lia. }
+  destruct (seg_write_safe (w_dst w) (p_seg dst) (p_off dst) bs Hd
+              ltac:(destruct Rd as (R1 & R2 & R3); unfold region_ok; lia)) as (m1 & -> & D1 & N1 & L1 & _).
+  cbn [lift0 bind].
+  assert (wgood w (w_set_dst w m1)) as G1 by (apply wgood_set_dst; auto; apply same_len_grows; auto).
+  (* the common pointers *)
+  pose proof (fold_res_post (wgood w)
+    (fun wa j =>
+       let '(r, rl') := readPtr true (w_segs wa InSrc) (w_rl wa InSrc) (p_seg src)
+                                (nth (Z.to_nat (p_seg src)) (w_segs wa InSrc) []) (pointerAddress src j) (p_depth src) in
+       do q <- r; write_ptr f true (w_set_rl wa InSrc rl') (p_seg dst) (pointerAddress dst j) InSrc q true)
+    (iota (Z.to_nat (Z.min (PointerCount (p_size src)) (PointerCount (p_size dst))))) (w_set_dst w m1)) as F1.
+  match type of F1 with ?A -> ?B -> ?C => assert A as HA end.
+  { intros j wa Hj (Da & Ga & Sa & Ra). apply in_iota in Hj. cbn [w_segs w_rl]. rewrite Sa.
+    change (nth (Z.to_nat (p_seg src)) (w_src w) []) with (seg_of (w_src w) src).
+    destruct (wf_struct_inv _ src Hs Vs) as (Hsg & Hz & Ho & He). unfold wf_size in Hz.
+    pose proof (pointerAddress_spec _ src j Hm Hs Vs ltac:(lia)) as PA.
+    pose proof (readPtr_safe true (w_src w) (w_src_rl wa) (p_seg src) (seg_of (w_src w) src) (pointerAddress src j)
+                  (p_depth src) Hm (seg_of_is_seg _ src Hsg) ltac:(lia) ltac:(lia)) as RS.
+    pose proof (readPtr_charge true (w_src w) (w_src_rl wa) (p_seg src) (seg_of (w_src w) src) (pointerAddress src j)
+                  (p_depth src) ltac:(lia)) as [RC _].
+    pose proof (readPtr_shape true (w_src w) (w_src_rl wa) (p_seg src) (seg_of (w_src w) src) (pointerAddress src j)
+                  (p_depth src)) as RH.
+    destruct (readPtr true (w_src w) (w_src_rl wa) (p_seg src) (seg_of (w_src w) src) (pointerAddress src j) (p_depth src))
+      as [r rl']. cbn [fst snd] in *.
+    destruct r as [q| |]; cbn [bind res_sat] in *; [|exact I|exact RS].
+    assert (wgood w (w_set_rl wa InSrc rl')) as Gb.
+    { split; [exact Da|]. split; [exact Ga|]. split; [exact Sa|]. cbn. lia. }
+    eapply rpost_trans; [exact Gb|].
+    apply IH; cbn [w_set_rl w_dst w_src w_src_rl]; auto; try lia.
+    - rewrite Sa. exact Hm.
+    - eapply region_grows; [exact Ga|]. apply dst_ptr_slot; auto. lia.
+    - rewrite Sa. apply RS. reflexivity. }
+  specialize (F1 HA G1). clear HA.
+  destruct (fold_res _ _ _) as [w2| |]; cbn [bind]; [|exact I|exact F1].
+  (* the destination's extra pointers are cleared *)
+  pose proof (fold_res_post (wgood w)
+    (fun wa j => lift0 wa (writeRawPointer (w_dst wa) (p_seg dst) (pointerAddress dst j) 0))
+    (map (fun k => PointerCount (p_size src) + k)
+         (iota (Z.to_nat (PointerCount (p_size dst) - PointerCount (p_size src))))) w2) as F2.
+  apply F2; [|exact F1].
+  intros j wa Hj (Da & Ga & Sa & Ra). apply in_map_iff in Hj. destruct Hj as (k & <- & Hk). apply in_iota in Hk.
+  destruct (wf_struct_inv _ src Hs Vs) as (_ & [_ Hz] & _).
+  eapply rpost_trans; [split; [exact Da|split; [exact Ga|split; [exact Sa|exact Ra]]]|].
+  apply lift0_write_safe; auto; try lia.
+  eapply region_grows; [exact Ga|]. apply dst_ptr_slot; auto. lia.
+Qed.
